@@ -305,7 +305,7 @@ pub fn generate(prop: &str, ctx: &mut Ctx, rep: &mut Report, emit: &mut dyn FnMu
             if let Some(bytes) = no_panic(|| c.to_cbor()) { emit(ctx, rep, format!("dec {}", hex(&bytes))); }
         }
     }
-    if prop == "C04" || prop == "C01" || prop == "C03" || prop == "C02" {
+    if prop == "C04" || prop == "C01" || prop == "C03" || prop == "C02" || prop == "C15" {
         for b in special_crc_bundles(&mut rng) { emit(ctx, rep, format!("{} {}", op, show_bundle(&b))); }
     }
     if prop == "C04" {
